@@ -26,6 +26,8 @@ func init() {
 			rep, err = encrep.RunWalk(*vec, *seed)
 		case "keys":
 			rep, err = encrep.RunKeys(*vec, *seed, *n)
+		case "tags":
+			rep, err = encrep.RunTags(*vec, *seed)
 		case "taggable":
 			rep, err = encrep.RunTaggable(*vec, *seed)
 		default:
